@@ -158,6 +158,12 @@ impl Drop for XPubSocket {
 #[async_trait]
 impl SocketSend for XPubSocket {
     async fn send(&mut self, message: ZmqMessage) -> ZmqResult<()> {
+        if message.is_empty() {
+            return Err(ZmqError::ReturnToSender {
+                reason: "Unable to send a message without frames",
+                message,
+            });
+        }
         let mut dead_peers = Vec::new();
         // The walk is not a snapshot: when the table shrinks under it (subscribers leaving on
         // other threads) it resumes at an earlier bucket and meets entries again.
